@@ -23,7 +23,14 @@ type Enc struct {
 	Lens []LenField
 	// Unknown, when >= 0, injects an unknown tagged field with this id into every tag buffer
 	Unknown int
-	path    string
+	// Custom, when set, encodes fields whose type has its own wire format (record sets).
+	Custom func(e *Enc, v reflect.Value, elem, path string) error
+	path   string
+}
+
+// Note records a length field written by a Custom encoder.
+func (e *Enc) Note(kind string, off, size int, val int64, path string) {
+	e.Lens = append(e.Lens, LenField{Off: off, Size: size, Kind: kind, Value: val, Path: path})
 }
 
 func (e *Enc) note(kind string, off, size int, val int64) {
@@ -81,7 +88,7 @@ func (e *Enc) Struct(v reflect.Value, tname string, ver int16, flex bool) error 
 		e.uvar("tag-count", uint64(n), int64(n))
 		for _, t := range tags {
 			e.W.UVar(uint64(t.id))
-			sub := &Enc{S: e.S, Unknown: e.Unknown, path: save + "." + t.f.Name}
+			sub := &Enc{S: e.S, Unknown: e.Unknown, Custom: e.Custom, path: save + "." + t.f.Name}
 			if err := sub.value(v.FieldByName(t.f.Name), t.f.Kind, t.f.Elem, t.alt, ver, flex); err != nil {
 				return err
 			}
@@ -194,6 +201,11 @@ func (e *Enc) value(v reflect.Value, kind, elem string, alt Alt, ver int16, flex
 		e.path = save
 	case "struct":
 		return e.Struct(v, elem, ver, flex)
+	case "custom":
+		if e.Custom == nil {
+			return fmt.Errorf("kind %q (%s) has no reference encoding", kind, elem)
+		}
+		return e.Custom(e, v, elem, e.path)
 	default:
 		return fmt.Errorf("kind %q (%s) has no reference encoding", kind, elem)
 	}
@@ -233,16 +245,21 @@ func (s *Schema) Request(key, ver int16, corr int32, client string, msg reflect.
 
 // Response returns the complete frame of a response.
 func (s *Schema) Response(key, ver int16, corr int32, msg reflect.Value, unknown int) ([]byte, []LenField, error) {
+	return s.ResponseWith(key, ver, corr, msg, unknown, nil)
+}
+
+// ResponseWith is Response with an encoder for custom (record set) fields.
+func (s *Schema) ResponseWith(key, ver int16, corr int32, msg reflect.Value, unknown int, custom func(e *Enc, v reflect.Value, elem, path string) error) ([]byte, []LenField, error) {
 	a := s.API(key)
 	if a == nil {
 		return nil, nil, fmt.Errorf("api %d not in schema", key)
 	}
 	flex := a.ResFlex >= 0 && ver >= a.ResFlex
-	e := &Enc{S: s, Unknown: unknown}
+	e := &Enc{S: s, Unknown: unknown, Custom: custom}
 	e.W.I32(0)
 	e.W.I32(corr)
 	if flex && key != 18 { // ApiVersions responses always use header v0
-		e.W.UVar(0)
+		e.uvar("tag-count", 0, 0)
 	}
 	if err := e.Struct(msg, a.Res, ver, flex); err != nil {
 		return nil, nil, err
